@@ -155,7 +155,7 @@ func realCheckerPart(r *hlib.Run, l *loaded) {
 			n++
 			r.Count("realcheck:corpus:" + strings.SplitN(out, ":", 2)[0])
 			if !strings.HasPrefix(out, "rejected") {
-				r.Fail("corpus-accepted:"+filepath.Base(f), "lang/check accepts a program that asserts a false fact through an axiom (then stores out of bounds): "+out, string(src))
+				r.Fail("corpus-accepted:"+filepath.Base(f), "lang/check accepts a program of the reject corpus (each holds an assertion / fact that is false at run time for some input, see the comment at its top): "+out, string(src))
 			}
 		}
 	}
